@@ -4,3 +4,5 @@ import Gk.Repo
 import Gk.Proto
 import Gk.Mon
 import Gk.DrvRepo
+import Gk.Hook
+import Gk.DrvHook
